@@ -129,6 +129,11 @@ def gen_schema_spec(rng, max_elems=8):
         spec['globals'] = [{'name': e['name'], 'type': rng.choice([k for k in ('date', 'boolean', 'double', 'string')
                                                                   if k != e['type']])}
                            for e in elems if rng.random() < 0.6]
+    if rng.random() < 0.25:
+        # an attribute wildcard on the root element and a global attribute declaration that it admits
+        spec['anyattr'] = rng.choice(['lax', 'lax', 'strict'])
+        spec['gattrs'] = [{'name': 'ga%d' % i, 'type': rng.choice(['int', 'integer', 'boolean', 'date', 'decimal', 'double', 'smallInt'])}
+                          for i in range(rng.choice([1, 2]))]
     if rng.random() < 0.3:
         spec['xsi'] = True
         if len(elems) > 1 and rng.random() < 0.6:
@@ -156,6 +161,8 @@ def render_schema(spec, variant='A'):
     parts.append(NAMED_TYPES)
     for g in spec.get('globals', ()):
         parts.append('<xs:element name="%s" type="%s"/>' % (g['name'], tname(g['type'])))
+    for ga in spec.get('gattrs', ()):
+        parts.append('<xs:attribute name="%s" type="%s"/>' % (ga['name'], tname(ga['type'])))
     parts.append('<xs:element name="r"><xs:complexType><xs:sequence>')
     for e in spec['elems']:
         occ = ' minOccurs="%d" maxOccurs="%d"' % (e['min'], e['max'])
@@ -176,6 +183,8 @@ def render_schema(spec, variant='A'):
     parts.append('</xs:sequence>')
     for a in spec['attrs']:
         parts.append('<xs:attribute name="%s" type="%s"/>' % (a['name'], tname(a['type'])))
+    if spec.get('anyattr'):
+        parts.append('<xs:anyAttribute namespace="##targetNamespace" processContents="%s"/>' % spec['anyattr'])
     parts.append('</xs:complexType></xs:element></xs:schema>')
     return ''.join(parts)
 
@@ -192,6 +201,11 @@ def gen_instance(rng, spec):
                 v = v or 'x'
             attrs += ' %s="%s"' % (a['name'], v)
             facts.append({'path': '/t:r/@%s' % a['name'], 'type': a['type'], 'lex': v, 'kind': 'attribute'})
+    for ga in spec.get('gattrs', ()):
+        if rng.random() < 0.8:
+            v = rng.choice(TYPES[ga['type']][3]).strip() or '0'
+            attrs += ' t:%s="%s"' % (ga['name'], v)
+            facts.append({'path': '/t:r/@t:%s' % ga['name'], 'type': ga['type'], 'lex': v, 'kind': 'attribute'})
     body = ''
     q = 't:' if spec.get('qualified') else ''
 
